@@ -22,7 +22,7 @@ NearMiss == {"", "tru", "yess", "2", "01", "o n", "truefalse", "none", "nope", "
              \* the long s (gamma: U+FB00, U+017F) - they are not the documented words
              "off_ligature", "yes_long_s", "false_long_s"}
 Casing == {"lower", "UPPER", "Title", "mIxEd"}
-Padding == {"none", "left", "right", "both", "tabs_newline"}
+Padding == {"none", "left", "right", "both", "tabs_newline", "wide"}      \* wide: 300 blanks before, 200 tabs after
 Defaults == {"False", "True", "None", "sentinel"}
 BoolCases == {[k |-> "bool", word |-> w, cas |-> cs, pad |-> p, strict |-> s, dflt |-> d] :
                 w \in TrueWords \cup FalseWords \cup NearMiss, cs \in Casing, p \in Padding,
